@@ -189,6 +189,10 @@ template<class T> static void chk_conv(const InV<T>& in,vf::Ctx& c){
 		if constexpr(L==4){ glm::vec<3,T,AQ> t(A); glm::vec<4,T,AQ> e(t,in.b[0]); for(int i=0;i<3;i++) if(!same(e[i],in.a[i])) c.fail("vec4(vec3,s):component-wrong",e[i],in.a[i]); if(!same(e[3],in.b[0])) c.fail("vec4(vec3,s):w-wrong",e[3],in.b[0]);
 			glm::vec<2,T,AQ> h(A); glm::vec<4,T,AQ> g(h,glm::vec<2,T,AQ>(in.b[0],in.b[1])); if(!same(g[0],in.a[0])||!same(g[1],in.a[1])||!same(g[2],in.b[0])||!same(g[3],in.b[1])) c.fail("vec4(vec2,vec2):component-wrong",g[2],in.b[0]); }
 		if constexpr(std::is_same<T,float>::value){ bool inr=true; for(int i=0;i<L;i++) if(!(std::fabs(in.a[i])<2147483000.0f)) inr=false; /* out-of-range float->int conversion is outside every documented domain */ if(inr){ glm::vec<L,int,AQ> iv(A); glm::vec<L,int,PQ> ip(mk<T,L,PQ>(in.a,0,in.poison)); for(int i=0;i<L;i++) if(iv[i]!=ip[i]) c.fail(tag(L,"float->int conversion:differs-from-pure"),iv[i],ip[i]); } }
+		if constexpr((std::is_same<T,i32>::value||std::is_same<T,u32>::value) && L>=2){ // float vector built from L integer scalars (values up to the full range of T)
+			glm::vec<L,float,AQ> sv; glm::vec<L,float,PQ> sp;
+			if constexpr(L==2){ sv=glm::vec<2,float,AQ>(in.a[0],in.a[1]); sp=glm::vec<2,float,PQ>(in.a[0],in.a[1]); } else if constexpr(L==3){ sv=glm::vec<3,float,AQ>(in.a[0],in.a[1],in.a[2]); sp=glm::vec<3,float,PQ>(in.a[0],in.a[1],in.a[2]); } else { sv=glm::vec<4,float,AQ>(in.a[0],in.a[1],in.a[2],in.a[3]); sp=glm::vec<4,float,PQ>(in.a[0],in.a[1],in.a[2],in.a[3]); }
+			for(int i=0;i<L;i++){ if(!same(sv[i],sp[i])) c.fail(tag(L,"float-vector(int scalars...):differs-from-pure"),sv[i],sp[i]); if(!same(sv[i],(float)in.a[i])) c.fail(tag(L,"float-vector(int scalars...):component-is-not-static_cast<float>(argument)"),sv[i],(float)in.a[i]); } }
 		if constexpr(std::is_same<T,i32>::value||std::is_same<T,u32>::value){ glm::vec<L,float,AQ> fv(A); glm::vec<L,float,PQ> fp(mk<T,L,PQ>(in.a,0,in.poison)); for(int i=0;i<L;i++) if(!same(fv[i],fp[i])) c.fail(tag(L,"int->float conversion:differs-from-pure"),fv[i],fp[i]); }
 	};
 	one(std::integral_constant<int,1>()); one(std::integral_constant<int,2>()); one(std::integral_constant<int,3>()); one(std::integral_constant<int,4>());
@@ -245,6 +249,9 @@ template<class T> static void chk_quat(const InV<T>& in,vf::Ctx& c){
 		auto X4=A*mk<T,4,AQ>(in.c,0,in.poison); auto Y4=PA*mk<T,4,PQ>(in.c,0,in.poison); for(int i=0;i<3;i++) if(!agree(X4[i],Y4[i],FORMULA,Sv,c,"quat*vec4-err/bound")) c.fail("quat:q*vec4:component:beyond-rounding-of-largest-term",X4[i],Y4[i]); if(!agree(X4[3],Y4[3],EXACT,0,c,nullptr)) c.fail("quat:q*vec4:w-component:not-identical",X4[3],Y4[3]);
 		auto Z4=mk<T,4,AQ>(in.c,0,in.poison)*A; auto W4=mk<T,4,PQ>(in.c,0,in.poison)*PA; for(int i=0;i<3;i++) if(!agree(Z4[i],W4[i],FORMULA,Sv,c,"vec4*quat-err/bound")) c.fail("quat:vec4*q:component:beyond-rounding-of-largest-term",Z4[i],W4[i]); if(!agree(Z4[3],W4[3],EXACT,0,c,nullptr)) c.fail("quat:vec4*q:w-component:not-identical",Z4[3],W4[3]); }
 	{ bool e1=(A==B), e2=(PA==PB); if(e1!=e2) c.fail("quat:operator==:differs-from-pure",e1,e2); }
+	// compound forms (the SIMD compute_quat_* specialisations are only reached through them)
+	{ auto X=A, Y=PA; X*=in.c[0]; Y*=in.c[0]; cmpq("q*=s",X,Y,EXACT,0,nullptr); } if(in.c[1]!=0){ auto X=A, Y=PA; X/=in.c[1]; Y/=in.c[1]; cmpq("q/=s",X,Y,EXACT,0,nullptr); }
+	{ auto X=A, Y=PA; X+=B; Y+=PB; cmpq("q+=q",X,Y,EXACT,0,nullptr); } { auto X=A, Y=PA; X-=B; Y-=PB; cmpq("q-=q",X,Y,EXACT,0,nullptr); } { auto X=A, Y=PA; X*=B; Y*=PB; cmpq("q*=q",X,Y,FORMULA,S,"quat-mul-err/bound"); }
 }
 VF_OP(quat_f32, InV<float>, F12_f){ chk_quat<float>(in,c); }
 VF_OP(quat_f64, InV<double>, F12_d){ chk_quat<double>(in,c); }
@@ -303,7 +310,7 @@ template<class T> static void reg_float(vf::Op** o){ // order = COMMON then GEOM
 	vjobs<T>().push_back(VJob<T>{o[k],[](InV<T>& x){ if(LOWP) for(int i=0;i<4;i++){ T v=(T)std::fabs((double)x.a[i]); if(v!=0 && !(v>=(T)1e-30&&v<=(T)1e30)) v=(T)(2.5+i); x.a[i]=v; } }}); k++; /*sqrt: lowp = rsqrt-based, domain zero or normal positive*/ REG(T,*o[k],pos) k++; /*inversesqrt*/ REG(T,*o[k],nn) k++; /*step*/ REG(T,*o[k],mod) k++; /*mod*/ REG(T,*o[k],bounded) k++; /*mix*/ REG(T,*o[k],edges) k++; /*smoothstep*/ REG(T,*o[k],bounded) k++; /*fma*/
 	REG(T,*o[k],nn) k++; /*mix_bool*/ REG(T,*o[k],nullptr) k++; /*isnan*/ REG(T,*o[k],nullptr) k++; /*lessThan*/ REG(T,*o[k],nullptr) k++; /*equal*/
 	REG(T,*o[k],geo) k++; /*dot*/ REG(T,*o[k],geo) k++; /*length*/ REG(T,*o[k],geo) k++; /*distance*/ REG(T,*o[k],nz) k++; /*normalize*/ REG(T,*o[k],geo) k++; /*reflect*/
-	vjobs<T>().push_back(VJob<T>{o[k],[](InV<T>& x){ fin(x.a,4,1e15); fin(x.b,4,1e15); fin(x.c,4,1e15); if(x.mode&4){ /* dot(Nref,I)==0 exactly */ x.b[0]=1; x.b[1]=0; x.b[2]=0; x.b[3]=0; x.c[0]=0; } }}); k++; /*faceforward: N=a, I=b, Nref=c */
+	vjobs<T>().push_back(VJob<T>{o[k],[](InV<T>& x){ fin(x.a,4,1e15); fin(x.b,4,1e15); fin(x.c,4,1e15); if(x.mode&4){ /* dot(Nref,I)==0 exactly */ x.b[0]=1; x.b[1]=0; x.b[2]=0; x.b[3]=0; x.c[0]=0; if(x.mode&2){ /* ... as a sum of negative zeros: dot == -0 */ for(int q=0;q<4;q++){ T m=(T)(std::fabs((double)x.c[q])+1+q); if(q&1){ x.c[q]=m; x.b[q]=(T)-0.0; } else { x.c[q]=(T)0; x.b[q]=(T)-m; } } } } }}); k++; /*faceforward: N=a, I=b, Nref=c */
 	vjobs<T>().push_back(VJob<T>{o[k],[](InV<T>& x){ /* refract: unit-ish I,N; eta in (0,4] */ fin(x.a,4,4); fin(x.b,4,4); for(int L=0;L<1;L++){} T eta=(T)std::fabs((double)x.c[0]); if(!(eta>(T)1e-3&&eta<=(T)4)) eta=(T)1.5; x.c[0]=eta;
 		long double na=0,nb=0; for(int i=0;i<4;i++){ na+=(long double)x.a[i]*x.a[i]; nb+=(long double)x.b[i]*x.b[i]; } if(na<1e-6){ x.a[0]=1; na=1+na; } if(nb<1e-6){ x.b[1]=1; nb=1+nb; } /* normalised for the 4-lane case; shorter lengths use a prefix (non-unit), which is still inside 'eta>0, finite' */ for(int i=0;i<4;i++){ x.a[i]=(T)(x.a[i]/sqrtl(na)); x.b[i]=(T)(x.b[i]/sqrtl(nb)); }
 		if((x.mode&6)==6){ /* a quarter of the inputs: N = +-axis, I in a coordinate plane with cos = m/256, eta within +-200 ulps of the critical 1/sin */
@@ -317,7 +324,8 @@ template<class T> static void reg_float(vf::Op** o){ // order = COMMON then GEOM
 template<class T> static void run_m(const char* label,std::vector<vf::Op*> ops){
 	u64 n=vf::N(20000,2000000);
 	vf::parallel(label,[&](int t,int TT,vf::Ctx& c){ for(u64 i=t;i<n;i+=TT){ InM<T> x; int m=(int)(c.rng.next()%4); for(int k=0;k<16;k++){ x.a[k]= m==0? (T)c.rng.range(-8,8): m==1? (T)c.rng.uniform(-2,2): (T)c.rng.gauss(); x.b[k]= m==0? (T)c.rng.range(-8,8): (T)c.rng.uniform(-3,3); }
-			if(m>=2) for(int k=0;k<4;k++) x.a[k*4+k]+= (T)(c.rng.coin()?4:-4); for(int k=0;k<4;k++) x.v[k]= m==0? (T)c.rng.range(-8,8):(T)c.rng.uniform(-5,5); x.mode=(u32)c.rng.next()&7; x.poison=(T)NAN; for(auto* o: ops) if(vf::want(*o)) vf::run(c,*o,x); } });
+			if(m>=2) for(int k=0;k<4;k++) x.a[k*4+k]+= (T)(c.rng.coin()?4:-4); for(int k=0;k<4;k++) x.v[k]= m==0? (T)c.rng.range(-8,8):(T)c.rng.uniform(-5,5); x.mode=(u32)c.rng.next()&7; x.poison=(T)NAN;
+			if(i%6==5){ /* one row of A scaled to ~sqrt(max): the product of two entries of that row overflows, everything the operations need stays finite */ int row=(int)c.rng.below(4); T sc=(T)std::ldexp(1.0,(sizeof(T)==4? 59:508)+(int)c.rng.below(4)); for(int col=0;col<4;col++){ T& e=x.a[col*4+row]; if(e==0) e=(T)(1+col); e=(T)(e*sc); } } for(auto* o: ops) if(vf::want(*o)) vf::run(c,*o,x); } });
 }
 static void workload(){
 	vf::note("aligned_qualifier",C03_STR(C03_AQ)); vf::note("lowp_approximation_allowed",LOWP?"yes (2^-11 relative for rcp/rsqrt based results)":"no");
